@@ -93,7 +93,7 @@ def run(tier, seed):
     ck = nc.run_property("C14", tier, seed, ["Inv14", "Serviceable"], PROFILE, mc, sim, 0, ASSUME, enum_plan=enum_plans(tier))
     ck.cov["pinned_models_violate"] = True
     # ---- fault sequences on the real node, each followed by the probe ---------------------------------
-    n = 1500 if th else 160
+    n = 1500 if th else 128
     hs = fan_out(_fault_job, [(seed * 7919 + i, 14 + (i % 3) * 6) for i in range(n)])
     nv, ncf = nc.judge(ck, "C14", hs, "c14_f", conf=True)
     ck.cov["fault_histories_with_probe"] = len(hs)
@@ -103,10 +103,16 @@ def run(tier, seed):
     for h in hs:
         if h["exits"]:
             ck.cov["histories_with_thread_exits"] = ck.cov.get("histories_with_thread_exits", 0) + 1
+    # ---- the free grain: Serviceable after every single thread step, under every interleaving --------------
+    nc.free_phase(ck, "C14", [
+        dict(cfg="T1", depth=11 if th else 8, maxtime=1, alpha=["cerok", "req1"], faults=True, maxconn=1, invs=["Serviceable", "Inv14"],
+             sim=300 if th else 40, sim_depth=24, sim_alpha=["cerok", "req1", "req2", "senderr"], sim_maxconn=2),
+        dict(cfg="TS", depth=11 if th else 8, maxtime=4, alpha=["cerok", "req1"], faults=True, maxconn=1, invs=["Serviceable", "Inv14"],
+             sim=300 if th else 40, sim_depth=24, sim_alpha=["cerok", "req1", "req2"], sim_maxconn=2)], seed, monitors=("C14",))
     # ---- schedules: the connection is lost at every scheduling point of a request in progress ---------
     from .. import schedscen
     P = 3 if th else 2
-    runs, nsch = schedscen.explore_scenario(schedscen.c14_peer_lost_while_request_in_progress, P, max_runs=6000 if th else 300, whole=True)
+    runs, nsch = schedscen.explore_scenario(schedscen.c14_peer_lost_while_request_in_progress, P, max_runs=6000 if th else 200, whole=True)
     res = nt.mon_batch(runs[0][0]["params"], [r["steps"] for r, _ in runs], "c14_sched")
     for (r, sched), v in zip(runs, res):
         for x in v.get("C14", []):
